@@ -1,5 +1,6 @@
 // scenarios for cocls::queue / cocls::limited_queue (C09, C10; MT parts also feed the C03 TSan workload)
 #pragma once
+#include <array>
 #include <functional>
 #include <vf/team.h>
 #include <vf/payload.h>
@@ -790,6 +791,71 @@ inline void queue_single_consumer(const vf::opts &o, vf::report &R, uint64_t cas
         if (err.empty() && canceled != (waiting ? 1 : 0)) err = "the waiting pop was not ended exactly once by the destruction of the queue";
         if (!err.empty()) { R.violation("monitor:delivery|queue_single_consumer", err, vf::jobj().kv("case", (unsigned long long)cn).kv("seed", (unsigned long long)o.seed).kv("ops", desc).str()); continue; }
         if (want_refused) R.cls("histories_with_a_refused_second_pop");
+        R.nontrivial_cases++; R.sig(desc);
+    }
+}
+
+
+// ---------------------------------------------------------------------------------------------
+// Bounded queue over a user-supplied item container of FIXED capacity equal to the limit (the Queue template parameter; a ring buffer
+// without allocation). "A push completes immediately while fewer than the limit items are waiting, otherwise it stays pending - holding
+// its item": the item container is never asked to hold more than `limit` items, items come out in push order, blocked pushes complete in
+// arrival order one per pop.
+inline std::atomic<int> g_ring_overflow{0};
+template <std::size_t N> struct lq_ring {
+    template <typename X> class type {
+    public:
+        template <typename... A> void emplace(A &&...a) {
+            if (_size == N) { g_ring_overflow.fetch_add(1, std::memory_order_relaxed); _slot[_head].reset(); _head = (_head + 1) % N; --_size; } // what a ring does: the oldest item is overwritten
+            _slot[(_head + _size) % N].emplace(std::forward<A>(a)...); ++_size;
+        }
+        void push(X &&x) { emplace(std::move(x)); }
+        void push(const X &x) { emplace(x); }
+        X &front() { return *_slot[_head]; }
+        const X &front() const { return *_slot[_head]; }
+        void pop() { _slot[_head].reset(); _head = (_head + 1) % N; --_size; }
+        std::size_t size() const { return _size; }
+        bool empty() const { return _size == 0; }
+    protected:
+        std::array<std::optional<X>, N> _slot; std::size_t _head = 0, _size = 0;
+    };
+};
+template <std::size_t L> std::string lq_ring_case(vf::rng &r, std::string &desc) {
+    using Q = cocls::limited_queue<std::string, lq_ring<L>::template type>;
+    std::string err;
+    int ov0 = g_ring_overflow.load();
+    std::deque<std::string> model; std::vector<std::string> got; int done = 0, pops = 0; size_t next_item = 0;
+    std::vector<std::unique_ptr<cocls::future<void>>> pf;
+    {
+        auto q = std::make_unique<Q>(L);
+        int len = 4 + (int)r.below(20);
+        desc = "ring container, limit " + std::to_string(L) + ": ";
+        for (int i = 0; i < len && err.empty(); i++) {
+            bool do_push = r.chance(3, 5) && model.size() < L + 3;
+            if (do_push) { std::string v = "item-number-" + std::to_string(1000000 + next_item++) + "-payload long enough for the heap"; model.push_back(v); pf.push_back(std::unique_ptr<cocls::future<void>>(new cocls::future<void>(q->push(v)))); desc += "push "; }
+            else if (!model.empty()) { pops++; qs_popper(*q, got, done).detach(); desc += "pop "; }
+            if (g_ring_overflow.load() != ov0) err = "the item container (capacity = limit) was asked to hold more than `limit` items";
+        }
+        while (err.empty() && pops < (int)model.size()) { pops++; qs_popper(*q, got, done).detach(); }
+        if (err.empty() && g_ring_overflow.load() != ov0) err = "the item container (capacity = limit) was asked to hold more than `limit` items";
+        for (auto &f : pf) if (err.empty() && !f->ready()) err = "a push is still pending although every item was popped";
+        if (!err.empty()) for (auto &f : pf) (void)f.release();
+    }
+    if (err.empty()) {
+        if (got.size() != model.size()) err = "popped " + std::to_string(got.size()) + " items, pushed " + std::to_string(model.size());
+        for (size_t k = 0; k < got.size() && err.empty(); k++) if (got[k] != model[k]) err = "pop #" + std::to_string(k) + " delivered '" + got[k].substr(0, 22) + "', expected '" + model[k].substr(0, 22) + "'";
+    }
+    return err;
+}
+inline void lqueue_ring_container(const vf::opts &o, vf::report &R, uint64_t cases) {
+    vf::rng master(vf::mix(o.seed, 0x10b1));
+    for (uint64_t cn = 0; cn < cases && R.nviol() < 5; cn++) {
+        vf::rng r(master.next());
+        vf::set_crash_ctx(R.prop.c_str(), "lqueue_ring_container", o.seed, cn);
+        std::string desc, err;
+        switch (cn % 4) { case 0: err = lq_ring_case<1>(r, desc); break; case 1: err = lq_ring_case<2>(r, desc); break; case 2: err = lq_ring_case<3>(r, desc); break; default: err = lq_ring_case<4>(r, desc); break; }
+        R.cases++;
+        if (!err.empty()) { R.violation("monitor:delivery|lqueue_ring_container", err, vf::jobj().kv("case", (unsigned long long)cn).kv("seed", (unsigned long long)o.seed).kv("ops", desc).str()); continue; }
         R.nontrivial_cases++; R.sig(desc);
     }
 }
